@@ -110,9 +110,6 @@ def deleteGuard (checkCompleted deleteOriginal : Bool) : Bool := checkCompleted 
 inductive FileRef | shankAp (i : Nat) | shankLf (i : Nat) | lf21
 deriving DecidableEq, Repr
 
-/-- the `idx`-th file `compress_NP24` handles: shank `idx / 2`, ap for even `idx`, lf for odd `idx` -/
-def file24 (idx : Nat) : FileRef := if idx % 2 = 0 then .shankAp (idx / 2) else .shankLf (idx / 2)
-
 inductive Eff
   /-- `_prepare_files_NP24`: every missing folder created, both files of every (re)prepared folder opened with "wb";
   `already_exists` set -/
@@ -220,7 +217,7 @@ def expand24 (cfg : Cfg) (call : Call) : Step → List Eff
   | .closeFiles _ => []
   | .writeMeta lf => (List.range cfg.n).map fun i => .md (if lf then cfg.n + i else i)
   | .check => (List.range (verifyReads cfg call)).map .read ++ [if splitDiffers cfg call then .assertFail else .checked]
-  | .compress => (List.range (2 * cfg.n)).flatMap fun idx => compressOne (file24 idx)
+  | .compress => (List.range cfg.n).flatMap fun i => compressOne (.shankAp i) ++ compressOne (.shankLf i)
   | .delete => [.delete]
 
 /-- The effects of one step of an NP2.1 run of an object whose reader points at the original in form `srForm`. -/
